@@ -59,6 +59,10 @@ pub struct Case {
     /// (background rotation build) temp-file look-alikes `<stem>.<unix seconds>` of the coming seconds lie around
     #[serde(default)]
     pub leftovers: bool,
+    /// before these rolls (indices) somebody clears the archive directories away (logrotate-style cleanup, a
+    /// remounted volume): the roller has to set them up again
+    #[serde(default)]
+    pub wipe_before: Vec<u8>,
 }
 
 /// `\xHH` escapes in a generated name stand for raw bytes (file names that are not valid UTF-8)
@@ -110,9 +114,9 @@ pub fn strategy() -> impl Strategy<Value = Case> {
         prop::collection::vec((any::<u16>(), content()), 0..=3),
         prop::collection::vec(content(), 1..=10),
         any::<u16>(),
-        (prop::bool::weighted(0.2), prop::option::weighted(0.08, (any::<u64>(), 70_000u32..400_000)), prop::bool::weighted(0.3)),
+        (prop::bool::weighted(0.2), prop::option::weighted(0.08, (any::<u64>(), 70_000u32..400_000)), prop::bool::weighted(0.3), prop_oneof![3 => Just(vec![]), 1 => prop::collection::vec(1u8..8, 1..=2)]),
     )
-        .prop_map(|(delete_roller, count, base_kind, pat, init_kind, init, by, rolls, act, (cross_device, big, leftovers))| {
+        .prop_map(|(delete_roller, count, base_kind, pat, init_kind, init, by, rolls, act, (cross_device, big, leftovers, wipe_before))| {
             let base: u32 = match base_kind {
                 0 => 0,
                 1 => 1,
@@ -176,6 +180,7 @@ pub fn strategy() -> impl Strategy<Value = Case> {
                 cross_device,
                 big,
                 leftovers,
+                wipe_before,
             }
         })
 }
@@ -251,12 +256,31 @@ fn check_in(dir: &Path, case: &Case, obs: &mut Obs) -> CaseResult {
     };
     let mut exact = gap_free_start;
     let mut evicted = false;
+    let mut wiped = false;
     let big_content = case.big.map(|(seed, len)| incompressible(seed, len as usize));
     for (ri, content) in case.rolls.iter().enumerate() {
         let content = match (&big_content, ri) {
             (Some(b), 0) => b,
             _ => content,
         };
+        if case.wipe_before.contains(&(ri as u8)) && !case.delete_roller {
+            // the top-level directory of every archive name that lives in a sub-directory goes away
+            let mut gone = false;
+            for o in 0..c {
+                let n = name(o);
+                if let Some((top, _)) = n.split_once('/') {
+                    let p = dir.join(top);
+                    if p.is_dir() && p != active.parent().unwrap_or(dir) {
+                        let _ = std::fs::remove_dir_all(&p);
+                        gone = true;
+                    }
+                }
+            }
+            if gone {
+                wiped = true;
+                exact = true; // an empty window is gap-free
+            }
+        }
         write_file(&active, content);
         #[allow(unused_mut)]
         let mut leftover_names: Vec<std::ffi::OsString> = vec![];
@@ -367,6 +391,7 @@ fn check_in(dir: &Path, case: &Case, obs: &mut Obs) -> CaseResult {
     obs.class_if(case.pattern.contains("$ENV"), "env-reference");
     obs.class_if(case.base as u64 + case.count as u64 > u32::MAX as u64, "base+count-overflows-u32");
     obs.class_if(case.delete_roller, "delete-roller");
+    obs.class_if(wiped, "archive-directory-cleared-between-rolls");
     obs.class_if(case.big.is_some(), "rolled-file>=70kB-incompressible");
     obs.class_if(case.active.contains("\\x"), "rolled-file-name-not-utf8");
     #[cfg(feature = "bg")]
@@ -419,7 +444,7 @@ pub fn run(run: &Run) {
         // one roller through 400 successive rolls (more than any 8-bit bookkeeping can count)
         for (count, pattern) in [(3u32, "a.{}.log"), (5, "arch/{}/a.log.gz")] {
             let rolls: Vec<Vec<u8>> = (0..400u32).map(|i| format!("roll {}\n", i).into_bytes()).collect();
-            run.eval_one("rolls", &Case { delete_roller: false, base: 1, count, pattern: pattern.to_string(), initial: vec![], bystanders: vec![("other.txt".into(), b"keep".to_vec())], bystander_dirs: vec![], active: "active.log".into(), rolls, cross_device: false, big: None, leftovers: false }, &f);
+            run.eval_one("rolls", &Case { delete_roller: false, base: 1, count, pattern: pattern.to_string(), initial: vec![], bystanders: vec![("other.txt".into(), b"keep".to_vec())], bystander_dirs: vec![], active: "active.log".into(), rolls, cross_device: false, big: None, leftovers: false, wipe_before: vec![120, 250] }, &f);
         }
     }
     run.note(format!("build: {}", if cfg!(feature = "bg") { "background_rotation" } else { "foreground rotation" }));
@@ -441,7 +466,7 @@ pub fn replay(part: &str, case: serde_json::Value) -> Option<CaseResult> {
 pub fn meta() -> EvidenceMeta {
     EvidenceMeta {
         level: "exploration",
-        rule: "cases = roller configuration (base in {0,1,3,9,99,u32::MAX-count,u32::MAX-count+1}, count 0-6, 12 patterns: index in file name / directory component / twice, non-ASCII, spaces, $ENV{set}/$ENV{unset} references, .gz/.zst) x initial directory (empty, contiguous prefix, gaps, archives outside the window, bystander files/dirs) x 1-10 successive Roll::roll calls on freshly written files (empty, small, ~10 kB, 70-400 kB incompressible; file and directory names that are not valid UTF-8; in the background-rotation build temp-file look-alikes <stem>.<unix second> for the coming seconds lie in the directory); oracle over full recursive snapshots before/after each roll: rolled path gone, index base holds the rolled bytes (decompressed with flate2/zstd when requested), exact shift base+j <- base+j-1 for gap-free windows, oldest evicted only when the window was full, with gaps the charitable ordered-list relation, every file outside the managed names byte-identical and no new file elsewhere; count 0 / delete roller: only the rolled file disappears. non-trivial = eviction reached with count >= 3, or initial gaps, or index in a directory component, or compression".into(),
+        rule: "cases = roller configuration (base in {0,1,3,9,99,u32::MAX-count,u32::MAX-count+1}, count 0-6, 12 patterns: index in file name / directory component / twice, non-ASCII, spaces, $ENV{set}/$ENV{unset} references, .gz/.zst) x initial directory (empty, contiguous prefix, gaps, archives outside the window, bystander files/dirs) x 1-10 successive Roll::roll calls (the archive directories may be cleared away between two of them) on freshly written files (empty, small, ~10 kB, 70-400 kB incompressible; file and directory names that are not valid UTF-8; in the background-rotation build temp-file look-alikes <stem>.<unix second> for the coming seconds lie in the directory); oracle over full recursive snapshots before/after each roll: rolled path gone, index base holds the rolled bytes (decompressed with flate2/zstd when requested), exact shift base+j <- base+j-1 for gap-free windows, oldest evicted only when the window was full, with gaps the charitable ordered-list relation, every file outside the managed names byte-identical and no new file elsewhere; count 0 / delete roller: only the rolled file disappears. non-trivial = eviction reached with count >= 3, or initial gaps, or index in a directory component, or compression".into(),
         assumptions: vec!["archive names computed with the harness's own single-pass $ENV expander".into()],
         mutants_caught: vec![],
     }
